@@ -23,6 +23,8 @@ def generate(rng, tier):
         acc = ebbgen.pick_acc(rng)
         entry = rng.choice([0, 0, 0, 1, 2])
         if entry == 2: acc = 0
+        elif rng.random() < 0.15:
+            acc = ebbgen.boundary_acc(rng, ebbgen.lt_total0(rate, accel, T)); fam += "/total-on-step-boundary"
         cases.append({"entry": entry, "rate": rate, "accel": accel, "T": T, "acc": acc, "amb": rng.randrange(len(AMBIENT)), "family": fam})
     return cases
 
